@@ -124,6 +124,10 @@ def run_case(case):
             text0, globs0 = H.graph_text()
             meta0 = file_meta()
             cfg = {"njob": rng.choice([1, 2, 3]), "resources": RESOURCES}
+            if rng.random() < 0.3:
+                cfg["db_delay"] = {"p": rng.choice([0.1, 0.4]), "max": 0.003, "seed": rng.randrange(1 << 30)}
+            if rng.random() < 0.3:
+                cfg["thread_delay"] = {"p": rng.choice([0.3, 1.0]), "max": 0.02, "seed": rng.randrange(1 << 30)}
             b1 = H.run_build(cfg, env=env)
             counters["nochange_rebuilds"] += 1
             counters["evaluations"] += 1
@@ -173,7 +177,12 @@ def run_case(case):
                     newp = f"in/gnew{rng.randrange(100)}.src"
                     H.write_file(newp, "new glob source\n")
                     edited.add(newp)
-            b2 = H.run_build({"njob": rng.choice([1, 2, 3]), "resources": RESOURCES}, env=env)
+            cfg2 = {"njob": rng.choice([1, 2, 3]), "resources": RESOURCES}
+            if rng.random() < 0.3:
+                cfg2["db_delay"] = {"p": rng.choice([0.1, 0.4]), "max": 0.003, "seed": rng.randrange(1 << 30)}
+            if rng.random() < 0.3:
+                cfg2["thread_delay"] = {"p": rng.choice([0.3, 1.0]), "max": 0.02, "seed": rng.randrange(1 << 30)}
+            b2 = H.run_build(cfg2, env=env)
             counters["cone_rebuilds"] += 1
             counters["evaluations"] += 1
             snap_after = db_snapshot()
